@@ -1,8 +1,8 @@
 /-
 Models of GSUB subtable codecs (/repo/opentype/gtab/gsub.go, as repaired for C08: a coverage
 offset above 0xFFFF is refused with a panic in `Gsub1_2/2_1/3_1.encode`, as `Gsub4_1.encode`
-already did): `Gsub1_1`, `Gsub1_2`, and the sequence tables `Gsub2_1` (Multiple Substitution) and
-`Gsub3_1` (Alternate Substitution), whose binary layouts and Go codecs coincide.
+already did): `Gsub1_1`, `Gsub1_2`, the sequence tables `Gsub2_1` (Multiple Substitution) and
+`Gsub3_1` (Alternate Substitution), whose binary layouts and Go codecs coincide, and `Gsub4_1`.
 Coverage tables are given as their glyph list in coverage-index order (see Model/OtlCoverage).
 Readers take the bytes from the subtable position on (offsets are from there).  Core-only.
 -/
@@ -127,12 +127,109 @@ def readSeq (b : Bytes) : Outcome (List (Nat × Nat) × List (List Nat)) :=
       | .panic s => .panic s
   | _ => .err eIO
 
+/-! ### GSUB 4.1 — `Gsub4_1{Cov coverage.Table; Repl [][]Ligature}`, `Ligature{In []glyph.ID; Out}` -/
+
+structure Lig where
+  inp : List Nat
+  out : Nat
+deriving DecidableEq, Repr
+
+def ligWords (l : Lig) : List Nat := l.out :: w16 (l.inp.length + 1) :: l.inp
+
+/-- byte size of a ligature set: count, offsets, ligature tables -/
+def ligSetLen (set : List Lig) : Nat := 2 + 2 * set.length + (set.map fun l => 4 + 2 * l.inp.length).sum
+
+/-- `pos` of each ligature inside its set -/
+def ligOffsets : List Lig → Nat → List Nat
+  | [], _ => []
+  | l :: ls, pos => w16 pos :: ligOffsets ls (pos + 4 + 2 * l.inp.length)
+
+def ligSetWords (set : List Lig) : List Nat :=
+  w16 set.length :: (ligOffsets set (2 + 2 * set.length) ++ set.flatMap ligWords)
+
+def ligSetOffsets : List (List Lig) → Nat → List Nat
+  | [], _ => []
+  | s :: ss, total => w16 total :: ligSetOffsets ss (total + ligSetLen s)
+
+def lig41Total (repl : List (List Lig)) : Nat := 6 + 2 * repl.length + (repl.map ligSetLen).sum
+
+def encodeLen41 (rev : List Nat) (repl : List (List Lig)) : Outcome Nat :=
+  match Cov.encodeLen rev with
+  | .ok n => .ok (lig41Total repl + n)
+  | .err e => .err e
+  | .panic s => .panic s
+
+def encode41 (rev : List Nat) (repl : List (List Lig)) : Outcome Bytes :=
+  let covOffs := lig41Total repl
+  match Cov.encodeLen rev with          -- `total += l.Cov.EncodeLen()` precedes the overflow test
+  | .ok _ =>
+    if covOffs > 0xFFFF then .panic "coverage offset overflow"
+    else match Cov.encode rev with
+      | .ok c => .ok (wordsToBytes ([1, w16 covOffs, w16 repl.length] ++
+          ligSetOffsets repl (6 + 2 * repl.length) ++ repl.flatMap ligSetWords) ++ c)
+      | .err e => .err e
+      | .panic s => .panic s
+  | .err e => .err e
+  | .panic s => .panic s
+
+/-- one ligature at byte offset `off`: glyph, componentCount, `componentCount-1` (uint16) glyphs -/
+def readLig (b : Bytes) (off : Nat) : Outcome Lig :=
+  match bytesToWords (b.drop off) with
+  | out :: cc :: rest =>
+    let n := (cc + 65535) % 65536
+    if rest.length < n then .err eIO else .ok ⟨rest.take n, out⟩
+  | _ => .err eIO
+
+def readLigs (b : Bytes) (setPos : Nat) : List Nat → Outcome (List Lig)
+  | [] => .ok []
+  | off :: offs =>
+    match readLig b (setPos + off) with
+    | .ok l =>
+      match readLigs b setPos offs with
+      | .ok ls => .ok (l :: ls)
+      | o => o
+    | .err e => .err e
+    | .panic s => .panic s
+
+def readLigSets (b : Bytes) : List Nat → Outcome (List (List Lig))
+  | [] => .ok []
+  | off :: offs =>
+    match bytesToWords (b.drop off) with
+    | n :: rest =>
+      if rest.length < n then .err eIO
+      else match readLigs b off (rest.take n) with
+        | .ok set =>
+          match readLigSets b offs with
+          | .ok sets => .ok (set :: sets)
+          | o => o
+        | .err e => .err e
+        | .panic s => .panic s
+    | [] => .err eIO
+
+/-- `readGsub4_1` -/
+def read41 (b : Bytes) : Outcome (List (Nat × Nat) × List (List Lig)) :=
+  match bytesToWords b with
+  | _ :: covOff :: n :: rest =>
+    if rest.length < n then .err eIO
+    else match Cov.read (b.drop covOff) with
+      | .ok cov =>
+        let pr := prune cov (rest.take n)
+        match readLigSets b pr.2 with
+        | .ok repl =>
+          if lig41Total repl > 0xFFFF then .err eInvalid else .ok (pr.1, repl)
+        | .err e => .err e
+        | .panic s => .panic s
+      | .err e => .err e
+      | .panic s => .panic s
+  | _ => .err eIO
+
 /-- `readGsubSubtable` for lookup types 1, 2, 3: format word, then dispatch
 (`gsubReaders[10*type+format]`) -/
 inductive Sub where
   | s11 (gs : List Nat) (delta : Nat)
   | s12 (cov : List (Nat × Nat)) (subs : List Nat)
   | seq (tp : Nat) (cov : List (Nat × Nat)) (seqs : List (List Nat))
+  | s41 (cov : List (Nat × Nat)) (repl : List (List Lig))
 
 def readSubtable (tp : Nat) (b : Bytes) : Outcome Sub :=
   match bytesToWords b with
@@ -151,6 +248,11 @@ def readSubtable (tp : Nat) (b : Bytes) : Outcome Sub :=
     else if (tp == 2 || tp == 3) && fmt == 1 then
       match readSeq b with
       | .ok r => .ok (.seq tp r.1 r.2)
+      | .err e => .err e
+      | .panic s => .panic s
+    else if tp == 4 && fmt == 1 then
+      match read41 b with
+      | .ok r => .ok (.s41 r.1 r.2)
       | .err e => .err e
       | .panic s => .panic s
     else .err eInvalid
